@@ -226,3 +226,130 @@ def collect_case_thorough(draw, tier="quick"):
 SUBS = [Sub("collect", collect_case_thorough, check_collect, quick=3000, thorough=40000)]
 REQUIRED_CLASSES = ["collect:multi_context_key", "collect:empty_group", "collect:all_covering_group", "collect:absent_axes",
                     "collect:non_identity_order"]
+
+
+# ---- Domain B: end to end through the stream front ends ------------------------------------------------
+from .. import streamgen as sg  # noqa: E402
+
+E2E_FRONTENDS = ["pandas", "numpy_dict", "xarray_coord", "netcdf"]
+
+
+@st.composite
+def e2e_case(draw, tier="quick"):
+    tbl = draw(sg.table(max_rows=15))
+    sids = list(tbl["cols"])
+    t = tbl["t"]
+    nctx = draw(st.sampled_from([1, 2, 3]))
+    cuts = None
+    if t and draw(st.integers(0, 3)) != 0:
+        idx = sorted(draw(st.lists(st.integers(0, len(t)), min_size=nctx + 1, max_size=nctx + 1)))
+        cuts = [(t[i] - 3 if i < len(t) else t[-1] + 3) for i in idx]
+    ctxs = []
+    for k in range(nctx):
+        streams = {}
+        for sid in draw(st.lists(st.sampled_from(sids), min_size=1, max_size=2, unique=True)):
+            streams[sid] = draw(st.lists(sg.test_entry(tbl), min_size=1, max_size=2, unique_by=lambda e: (e[0], e[1])))
+        if cuts is not None:
+            ctxs.append({"window": {"starting": cuts[k], "ending": cuts[k + 1]}, "streams": streams})
+        else:
+            ctxs.append({"window": None, "streams": streams})
+            break
+    return {"table": tbl, "contexts": ctxs, "style": draw(st.sampled_from(["iso", "datetime"])),
+            "frontends": draw(st.lists(st.sampled_from(E2E_FRONTENDS), min_size=1, max_size=2, unique=True)),
+            "reverse_contexts": draw(st.booleans())}
+
+
+def check_e2e(case, rec):
+    import warnings
+    from ioos_qc.config import Config
+    from ioos_qc.results import collect_results
+    from ioos_qc.streams import NetcdfStream, NumpyStream, PandasStream, XarrayStream
+    from . import c05
+    c05.ensure()
+    tbl = case["table"]
+    n = tbl["n"]
+    ctxs = case["contexts"][::-1] if case.get("reverse_contexts") else case["contexts"]
+    # model: per key the scatter of the direct calls
+    exp = {}
+    for c in case["contexts"]:
+        mask = sg.row_mask(tbl, c.get("window"))
+        for sid, entries in c["streams"].items():
+            for mod, test, kw in entries:
+                fl = sg.direct_call(tbl, mask, sid, mod, test, kw)
+                if fl is None:
+                    continue
+                col = exp.setdefault((sid, mod, test), [None] * n)
+                it = iter(fl)
+                for i, m in enumerate(mask):
+                    if m:
+                        col[i] = next(it)
+    partial = any(not all(sg.row_mask(tbl, c.get("window"))) for c in case["contexts"])
+    rec.note(len(case["contexts"]) >= 2 or "z" not in tbl["axes"] or "lat" not in tbl["axes"],
+             [f"contexts={len(case['contexts'])}"] + (["partial_windows"] if partial else []) +
+             (["axis_absent"] if ("z" not in tbl["axes"] or "lat" not in tbl["axes"]) else []) +
+             (["contexts_listed_in_reverse"] if case.get("reverse_contexts") else []) + [f"fe={f}" for f in case["frontends"]])
+    cfg = sg.config_obj(ctxs, case["style"])
+    axes = {}
+    if "z" in tbl["axes"]:
+        axes["z"] = sg.np_col(tbl["axes"]["z"])
+    if "lat" in tbl["axes"]:
+        axes["lat"] = sg.np_col(tbl["axes"]["lat"])
+        axes["lon"] = sg.np_col(tbl["axes"]["lon"])
+    tarr = sg.np_time(tbl["t"]) if tbl["t"] is not None else None
+    src = {"tinp": tarr, "zinp": axes.get("z"), "lat": axes.get("lat"), "lon": axes.get("lon")}
+    for fe in case["frontends"]:
+        site = f"collect_results({fe})"
+
+        def stream():
+            if fe == "pandas":
+                return PandasStream(sg.make_df(tbl))
+            if fe == "numpy_dict":
+                return NumpyStream(inp={k: sg.np_col(v) for k, v in tbl["cols"].items()}, time=tarr, **axes)
+            if fe == "xarray_coord":
+                return XarrayStream(sg.make_xr(tbl, "coord"))
+            return NetcdfStream(sg.make_xr(tbl, "coord"))
+        with warnings.catch_warnings():
+            warnings.simplefilter("ignore")
+            try:
+                got_list = collect_results(list(stream().run(Config(cfg))), how="list")
+                got_dict = collect_results(list(stream().run(Config(cfg))), how="dict")
+            except Exception as e:
+                rec.fail(site, f"raised {type(e).__name__}: {str(e)[:200]}", raised=True, exc=type(e).__name__, frontend=fe)
+                continue
+        keys = sorted((c.stream_id, c.package, c.test) for c in got_list)
+        if keys != sorted(exp):
+            rec.fail(site, f"collected keys {keys} != expected {sorted(exp)}", expected=sorted(exp), got=keys, frontend=fe)
+            continue
+        for c in got_list:
+            k = (c.stream_id, c.package, c.test)
+            col = exp[k]
+            d, m = np.ma.getdata(c.results), np.ma.getmaskarray(c.results)
+            have = [None if mm else int(v) for v, mm in zip(np.asarray(d).ravel().tolist(), np.asarray(m).ravel().tolist())]
+            if have != col:
+                rec.fail(site, f"{k}: list form differs from the scatter of the direct calls", expected=col, got=have, frontend=fe)
+                break
+            dd = gd = None
+            try:
+                gd = got_dict[k[0]][k[1]][k[2]]
+                dd = [int(v) for v in np.asarray(np.ma.getdata(gd)).ravel().tolist()]
+            except Exception:
+                pass
+            if dd != [2 if v is None else v for v in col]:
+                rec.fail(site, f"{k}: dict form differs (UNKNOWN expected on uncovered rows)",
+                         expected=[2 if v is None else v for v in col], got=dd, frontend=fe)
+                break
+            for name, want in [("data", sg.np_col(tbl["cols"][k[0]]))] + [(a, s) for a, s in src.items() if s is not None]:
+                arr = getattr(c, name)
+                if np.shape(arr) != (n,):
+                    rec.fail(site, f"{k}: collected {name} has shape {np.shape(arr)}", axis=name, frontend=fe)
+                    break
+                ad, am = np.ma.getdata(arr), np.ma.getmaskarray(arr)
+                bad = [i for i in range(n) if col[i] is not None and (am[i] or not (ad[i] == want[i] or (ad[i] != ad[i] and want[i] != want[i])))]
+                if bad:
+                    rec.fail(site, f"{k}: collected {name}[{bad[0]}] != source", axis=name, row=bad[0], frontend=fe,
+                             expected=str(want[bad[0]]), got=str(ad[bad[0]]))
+                    break
+
+
+SUBS.append(Sub("end_to_end", e2e_case, check_e2e, quick=500, thorough=8000))
+REQUIRED_CLASSES += ["end_to_end:partial_windows", "end_to_end:axis_absent", "end_to_end:contexts_listed_in_reverse"]
